@@ -259,11 +259,22 @@ Definition init_signal (d : nat) (t : thrower) : signal :=
 
 (* c_post = Some post: the innermost frame of c_pre calls the rest of the chain (post, thrower) inside a
    promise job (Promise.resolve().then(function(){ … }).catch(log)); jobs run in Runtime.leave() of the
-   OUTERMOST runWrapped / RunProgram, after every frame of c_pre has returned normally *)
+   OUTERMOST runWrapped / RunProgram, after the synchronous part is over.  The job may equally be the continuation
+   of an async function body or (for a plain frame) a generator body: a body whose try statements have all been left
+   when the call is made is not a frame of its own — it has no active try, i.e. it is [mkJS None false FinQuiet] *)
 Record chain := mkChain { c_entry : callback; c_pre : list frame; c_post : option (list frame); c_thrower : thrower }.
 
 Definition runs_jobs (cb : callback) : bool :=
   match cb with CbCallable | CbCtor | CbRunString | CbExportErr | CbExportNoErr => true | _ => false end.
+
+(* runWrapped / RunProgram reach Runtime.leave() (which runs the jobs) only when the synchronous part completed
+   or threw a JS exception (vm.try / runTry returned); an uncatchable error drops the queue (leaveAbrupt), a foreign
+   panic leaves through the recover without running it *)
+Definition sync_ok (s : signal) : bool :=
+  match s with
+  | SNormal => true
+  | SPanic p => match exc_of 0 p with Some _ => true | None => false end
+  end.
 
 Definition propagate (c : chain) : list event * gores :=
   match c_post c with
@@ -272,7 +283,7 @@ Definition propagate (c : chain) : list event * gores :=
       (ev, cb_convert 0 (c_entry c) s)
   | Some post =>
       let '(s1, ev1) := unwind 0 (c_pre c) SNormal in
-      if runs_jobs (c_entry c) then
+      if runs_jobs (c_entry c) && sync_ok s1 then
         let dp := length (c_pre c) in
         let '(s2, ev2) := unwind dp post (init_signal (dp + length post) (c_thrower c)) in
         match s2 with
